@@ -823,7 +823,14 @@ mark, and is then appended again): the number of times a paragraph for record `x
 the number of its copies still in `bounce/<m>`, plus those in committed bounces (injection succeeded
 and the file was unlinked), plus those discarded with the bounce file of a `#@[]` message.  The
 committed copies are exactly the paragraphs of the committed injections; paragraphs are dropped only
-under the documented discard; paragraphs still in the file keep the message in the queue (retry). -/
+under the documented discard; paragraphs still in the file keep the message in the queue (retry).
+WHAT THIS IS: an identity between the monitor's bookkeeping fields `noted`/`inFile`/`bounced` (ghost
+state of the monitor, updated by `appendBounce`/`unlinkBounce`) and the history layer — it counts
+*records*, not text.  EXEMPTION not visible in the counts: a machine crash may replace the never-fsynced
+`bounce/<m>` (`crashBounce`); the monitor then keeps `inFile` and lists the records in `lostRecs`, so a
+lost record still counts as "bounced once" when the damaged file is later injected and unlinked
+(example below).  That the TEXT appended for a record is inside the committed notice is
+`C14_daemon_committed` / `C14_daemon_left_queue`, which hold for every record not in `lostRecs`. -/
 theorem C14_daemon_exactly_once (cfg : Daemon.Cfg) (s : Daemon.St) (g : Ghost) (hr : GReach cfg s g) (m : Nat) :
     (∀ x, (s.msg m).noted.count x = (s.msg m).inFile.count x + (s.msg m).bounced.count x + (g m).dropped.count x) ∧
     (s.msg m).bounced = ((g m).committed.map (·.paras)).flatten ∧
@@ -848,18 +855,24 @@ theorem C14_daemon_exactly_once (cfg : Daemon.Cfg) (s : Daemon.St) (g : Ghost) (
 /-- **(b) What a committed bounce is**: every injection after which the monitor accepted the unlink
 went, with the envelope `bounceEnvelope` prescribes, to the envelope sender *that qmail-queue accepted
 for the message* (= the sender stored in `info/<m>`; never for a `#@[]` message), carried the whole
-bounce file of that moment inside its text, and that file names one record per appended text; unless a machine crash rewrote `bounce/<m>` (the documented exemption
-`lost`), the file was the concatenation of the appended texts, so each of them is inside the notice. -/
+bounce file of that moment inside its text, and that file names one record per appended text.
+**Per record**: the text appended for every record that is not among the crash-lost ones
+(`lostRecs`: records that were in `bounce/<m>` when a machine crash replaced the never-fsynced file by
+something that does not even start with the old content — the documented exemption) is inside the
+queued notice.  If no crash ever touched the file (`lost = false`) the file was exactly the
+concatenation of the appended texts. -/
 theorem C14_daemon_committed (cfg : Daemon.Cfg) (s : Daemon.St) (g : Ghost) (hr : GReach cfg s g) (m : Nat)
     (x : Sent) (hx : x ∈ (g m).committed) :
     x.sender ≠ DBSENDER ∧ x.env = Daemon.bounceEnvelope cfg x.sender ∧ Daemon.isInfix x.file x.body = true ∧
     x.paras.length = x.parts.length ∧
     (∀ sd r, (s.msg m).accepted = some (sd, r) → x.sender = sd ∧ x.env = Daemon.bounceEnvelope cfg sd) ∧
     (∀ info, (s.msg m).info = some info → x.sender = senderOf info) ∧
+    (∀ pr ∈ List.zip x.paras x.parts, pr.1 ∉ (s.msg m).lostRecs → Daemon.isInfix pr.2 x.body = true) ∧
     ((s.msg m).lost = false → x.parts ≠ [] ∧ x.file = fileOf x.parts ∧ ∀ p ∈ x.parts, Daemon.isInfix p x.body = true) := by
   have h := (greach_inv cfg s g hr).2 m
   have hok := h.c6 x (h.c6a x hx)
-  refine ⟨hok.notdb, hok.env, hok.inf, hok.len, fun sd r ha => ⟨hok.acc sd r ha, by rw [hok.env, hok.acc sd r ha]⟩, hok.sender, ?_⟩
+  refine ⟨hok.notdb, hok.env, hok.inf, hok.len, fun sd r ha => ⟨hok.acc sd r ha, by rw [hok.env, hok.acc sd r ha]⟩, hok.sender,
+    fun pr hpr hn => isInfix_trans pr.2 x.file x.body (hok.kept pr hpr hn) hok.inf, ?_⟩
   intro hl
   obtain ⟨h1, h2⟩ := hok.intact hl
   refine ⟨h1, h2, fun p hp => isInfix_trans p x.file x.body ?_ hok.inf⟩
@@ -869,12 +882,17 @@ theorem C14_daemon_committed (cfg : Daemon.Cfg) (s : Daemon.St) (g : Ghost) (hr 
 the queue**: once `info/<m>` is gone (after which qmail-clean removes the message) no paragraph is
 left in a file, and — unless the message's own sender was `#@[]` (discard) — every record has exactly
 as many copies in committed bounces as paragraphs were appended for it: in particular a paragraph
-appended once is in exactly one committed bounce. -/
+appended once is in exactly one committed bounce.  The counts are bookkeeping identities (see
+`C14_daemon_exactly_once`); the last clause is about TEXT: for every committed bounce and every record
+it names that is not crash-lost (`lostRecs`, the second documented exemption), the text appended for
+that record is inside the queued notice. -/
 theorem C14_daemon_left_queue (cfg : Daemon.Cfg) (s : Daemon.St) (g : Ghost) (hr : GReach cfg s g) (m : Nat)
     (ht : (s.msg m).todo = none) (hi : (s.msg m).info = none) :
     (s.msg m).inFile = [] ∧
     (∀ x, (s.msg m).noted.count x = (((g m).committed.map (·.paras)).flatten).count x + (g m).dropped.count x) ∧
-    ((s.msg m).discarded = false → ∀ x, (s.msg m).noted.count x = (((g m).committed.map (·.paras)).flatten).count x) := by
+    ((s.msg m).discarded = false → ∀ x, (s.msg m).noted.count x = (((g m).committed.map (·.paras)).flatten).count x) ∧
+    (∀ x ∈ (g m).committed, x.paras.length = x.parts.length ∧
+      ∀ pr ∈ List.zip x.paras x.parts, pr.1 ∉ (s.msg m).lostRecs → Daemon.isInfix pr.2 x.body = true) := by
   obtain ⟨hI, hG⟩ := greach_inv cfg s g hr
   have h := hG m
   have hb : (s.msg m).bounce = none := by
@@ -892,15 +910,18 @@ theorem C14_daemon_left_queue (cfg : Daemon.Cfg) (s : Daemon.St) (g : Ghost) (hr
     have h2' : (s.msg m).bounced = ((g m).committed.map (·.paras)).flatten := h2
     rw [hf, h2'] at h1'
     simpa using h1'
-  refine ⟨hf, hc, ?_⟩
-  intro hd x
-  have hdr : (g m).dropped = [] := by
-    cases hdd : (g m).dropped with
-    | nil => rfl
-    | cons a t =>
-      have : (s.msg m).discarded = true := h.c8 (by rw [hdd]; simp)
-      rw [hd] at this; cases this
-  rw [hc x, hdr]; simp
+  refine ⟨hf, hc, ?_, ?_⟩
+  · intro hd x
+    have hdr : (g m).dropped = [] := by
+      cases hdd : (g m).dropped with
+      | nil => rfl
+      | cons a t =>
+        have : (s.msg m).discarded = true := h.c8 (by rw [hdd]; simp)
+        rw [hd] at this; cases this
+    rw [hc x, hdr]; simp
+  · intro x hx
+    have hc := C14_daemon_committed cfg s g hr m x hx
+    exact ⟨hc.2.2.2.1, hc.2.2.2.2.2.2.1⟩
 
 /-- At any time, a record is named in committed bounces at most as often as a paragraph was appended
 for it (no invention, no double sending through two committed bounces). -/
@@ -1025,6 +1046,16 @@ example : ((gacceptAll dcfg0 ginit (pre0 [115] ++ [.bounceInject 7 false [] []])
 example : ((gacceptAll dcfg0 ginit (pre0 [115] ++ [.bounceInject 7 true [70, 0, 84, 115, 0] body0,
       .bounceInject 7 true [70, 0, 84, 115, 0] body0, .unlinkBounce 7])).map fun sg =>
     (sg.2 7).attempts.length == 2 && (sg.2 7).committed.length == 1 && (sg.1.msg 7).bounced == [(.loc, 0)]) = some true := by decide
+/-- the exemption the counts do not show (audit probe): a crash empties the never-fsynced `bounce/7`, a
+notice that does not contain the paragraph is injected and committed — the record counts as bounced
+once, and it is in `lostRecs`, which is exactly the hypothesis the text clauses of
+`C14_daemon_committed`/`C14_daemon_left_queue` exclude -/
+example : ((gacceptAll dcfg0 ginit (pre0 [115] ++ [.crashBounce 7 [], .bounceInject 7 true [70, 0, 84, 115, 0] [88], .unlinkBounce 7] ++ evDone 7)).map fun sg =>
+    (sg.1.msg 7).bounced == [(.loc, 0)] && (sg.2 7).committed.map (·.body) == [[88]] && (sg.1.msg 7).lost &&
+    (sg.1.msg 7).lostRecs == [(.loc, 0)] && (sg.2 7).committed.map (·.parts) == [[para0]]) = some true := by decide
+/-- …whereas a crash that leaves the old content as a prefix loses nothing: `lostRecs` stays empty -/
+example : ((gacceptAll dcfg0 ginit (pre0 [115] ++ [.crashBounce 7 (para0 ++ [120])])).map fun sg =>
+    (sg.1.msg 7).lost && (sg.1.msg 7).lostRecs == [] && (sg.1.msg 7).inFile == [(.loc, 0)]) = some true := by decide
 /-- an unlink without a successful injection is not accepted -/
 example : Daemon.acceptAll dcfg0 {} (pre0 [115] ++ [.unlinkBounce 7]) = none := by decide
 /-- … nor an injection of something that does not contain the file, nor one with another envelope -/
